@@ -629,6 +629,13 @@ func (p *parser) parsePostfix() Expr {
 		case p.isOp("("):
 			p.p++
 			var args []Expr
+			if id, ok := x.(*EIdent); ok && (id.Name == "allfields" || id.Name == "allelems" || id.Name == "allmaps") {
+				// the argument is a type (possibly an instantiated generic), not an expression
+				args = []Expr{&ETypeVal{p.parseType()}}
+				p.expectOp(")")
+				x = &ECall{x, args}
+				continue
+			}
 			if !p.isOp(")") {
 				args = p.parseExprList()
 			}
